@@ -944,15 +944,43 @@ pub async fn run_scenario(mix: Mix, sseed: u64, thorough: bool) -> String {
     };
     // every node's pool connected (one connection per node + the control connection), the prepared
     // statement known to every node
+    // Every (node, shard) must have its pool connection before the first request (on sharded nodes the
+    // first connection goes to the plain port and lands on an arbitrary shard, the pool then opens the
+    // missing ones and closes surplus ones): wait until the mock sees a non-control connection on every
+    // shard of every node AND the set of connections has not changed for 200 ms; then let the driver's
+    // tasks run so that what the mock has acknowledged is registered in the pools.
     let t = Instant::now();
-    let want_conns = sc.nnodes * (sc.shards.max(1) as usize) + 1;
-    while cluster.connections(None).len() < want_conns && t.elapsed() < Duration::from_secs(20) {
-        tokio::time::sleep(Duration::from_millis(2)).await;
+    let covered = |cluster: &MockCluster| -> bool {
+        (0..sc.nnodes).all(|n| {
+            let cs = cluster.connections(Some(n));
+            (0..sc.shards.max(1)).all(|sh| cs.iter().any(|c| c.registered.is_empty() && (sc.shards == 0 || c.shard == sh)))
+        })
+    };
+    let ids = |cluster: &MockCluster| -> Vec<u64> {
+        let mut v: Vec<u64> = cluster.connections(None).iter().map(|c| c.conn_id).collect();
+        v.sort();
+        v
+    };
+    let mut settled = false;
+    while t.elapsed() < Duration::from_secs(20) {
+        if covered(&cluster) {
+            let before = ids(&cluster);
+            tokio::time::sleep(Duration::from_millis(200)).await;
+            if covered(&cluster) && ids(&cluster) == before {
+                settled = true;
+                break;
+            }
+        } else {
+            tokio::time::sleep(Duration::from_millis(2)).await;
+        }
     }
-    if cluster.connections(None).len() < want_conns {
+    if !settled {
         // pools still filling after 20 s: requests would go out on whatever connection exists
         cluster.shutdown();
-        return "skip-env pools-not-filled-in-20s".into();
+        return "skip-env pools-not-settled-in-20s".into();
+    }
+    for _ in 0..100 {
+        tokio::task::yield_now().await;
     }
     let prepared = {
         let t = Instant::now();
@@ -1048,6 +1076,21 @@ pub async fn run_scenario(mix: Mix, sseed: u64, thorough: bool) -> String {
     }
     if ins.len() != g.frames.len() {
         return format!("error trace-mismatch in={} handled={}", ins.len(), g.frames.len());
+    }
+    // The pools must not have been changing while requests were measured: a connection accepted after
+    // the first marked request, on a node the mock has not cut before, means the driver was still
+    // (re)filling a pool -- requests may then have gone out on a connection of another shard.
+    if let Some(first) = ins.first().map(|x| x.0) {
+        let mut cut_nodes: Vec<usize> = Vec::new();
+        for (i, e) in trace.iter().enumerate() {
+            match &e.ev {
+                Ev::Close { by: CloseBy::MockRst | CloseBy::MockFin } => cut_nodes.push(e.node),
+                Ev::Open { .. } if i > first && !cut_nodes.contains(&e.node) => {
+                    return "skip-env pool-changed-during-the-scenario".into();
+                }
+                _ => {}
+            }
+        }
     }
     let mut cuts: Vec<(u64, usize)> = Vec::new(); // (time, node) of connections cut by the mock
     for (i, e) in trace.iter().enumerate() {
